@@ -29,25 +29,47 @@ theorem trimRightDots_append {x n : Bytes} (hn : n ≠ []) (ht : trimRightDots n
   have := ht hn
   rwa [List.getLast_append_right hn]
 
+/-- the names stored after one more level was created are stored names or that level -/
+theorem storedNames_set_sub {names : List Bytes} {st : State κ} {k1 : κ} {rec : Record}
+    (hInv : Inv cfg { recs := set st.recs k1 rec, idx := set st.idx (rec.addr, k1) rec })
+    (hst : ∀ x ∈ storedNames st, x ∈ names) (hrec : rec.name ∈ names) :
+    ∀ x ∈ storedNames ({ recs := set st.recs k1 rec, idx := set st.idx (rec.addr, k1) rec } : State κ),
+      x ∈ names := by
+  intro x hx
+  obtain ⟨k, r, hg, rfl⟩ := mem_storedNames cfg hInv hx
+  by_cases hk : k = k1
+  · subst hk
+    simp only [get_set_self, Option.some.injEq] at hg
+    subst hg; exact hrec
+  · simp only [get_set_ne _ _ hk] at hg
+    exact hst _ (mem_storedNames_of_get hg)
+
 /-- Every name the root-creation loop brings into being with two or more segments has its
-immediate parent bound when the loop is done (`n` = the name built so far: empty, or bound). -/
-theorem createRootLoop_levels (hH : Function.Injective cfg.H) (addr : Addr) (restricted : Bool)
-    (segs : List Bytes) :
+immediate parent bound when the loop is done (`n` = the name built so far: empty, or bound).
+The hash must not collide on the names the loop builds (as written and normalized) and the stored
+names. -/
+theorem createRootLoop_levels {names : List Bytes} (hH : NoHashCollision cfg names) (addr : Addr)
+    (restricted : Bool) (segs : List Bytes) :
     ∀ (n : Bytes) (st st' : State κ), (∀ s ∈ segs, dot ∉ s) → Inv cfg st → trimRightDots n = n →
+      (∀ x ∈ rootPath segs n, x ∈ names ∧ normalizeName x ∈ names) →
+      (∀ x ∈ storedNames st, x ∈ names) →
       (n = [] ∨ ∃ k, getNameKeyPrefix cfg (normalizeName n) = .ok k ∧ (get st.recs k).isSome = true) →
       createRootLoop cfg addr restricted segs n st = .ok st' →
       ∀ k r, get st'.recs k = some r → get st.recs k = none → 2 ≤ (splitDot r.name).length →
         (getRecordByName cfg st' (immediateParent r.name)).isSome = true := by
   induction segs with
   | nil =>
-    intro n st st' _ _ _ _ h k r hg hnone _
+    intro n st st' _ _ _ _ _ _ h k r hg hnone _
     simp [createRootLoop] at h
     subst h
     rw [hnone] at hg; cases hg
   | cons seg rest ih =>
-    intro n st st' hfree hI htrim hQ h k r hg hnone hlen
+    intro n st st' hfree hI htrim hpath hstored hQ h k r hg hnone hlen
     have hseg : dot ∉ seg := hfree seg (by simp)
     have hrest : ∀ s ∈ rest, dot ∉ s := fun s hs => hfree s (List.mem_cons_of_mem _ hs)
+    have hhead := hpath (trimRightDots (seg ++ dot :: n)) (by simp [rootPath])
+    have hpath' : ∀ x ∈ rootPath rest (trimRightDots (seg ++ dot :: n)), x ∈ names ∧ normalizeName x ∈ names :=
+      fun x hx => hpath x (by simp [rootPath, hx])
     simp only [createRootLoop] at h
     have htrim' := trimRightDots_idem (seg ++ dot :: n)
     split at h
@@ -57,7 +79,9 @@ theorem createRootLoop_levels (hH : Function.Injective cfg.H) (addr : Addr) (res
         have hI1 := inv_setNameRecord cfg hI h1
         obtain ⟨nn, k1, hnn, hk1, hfree1, rfl⟩ := setNameRecord_ok cfg h1
         have hnneq := normalize_eq_normalizeName cfg hnn
-        have ih1 := ih _ _ _ hrest hI1 htrim'
+        have hstored1 := storedNames_set_sub cfg hI1 hstored
+          (by simp only; rw [hnneq]; exact hhead.2)
+        have ih1 := ih _ _ _ hrest hI1 htrim' hpath' hstored1
           (Or.inr ⟨k1, by rw [← hnneq]; exact hk1, by simp [get_set_self]⟩) h
         have hmono := (createRootLoop_effect cfg addr restricted rest _ _ _ h).1
         by_cases hk : k = k1
@@ -94,7 +118,125 @@ theorem createRootLoop_levels (hH : Function.Injective cfg.H) (addr : Addr) (res
         · exact ih1 k r hg (by rw [get_set_ne _ _ hk]; exact hnone) hlen
     · rename_i e hex
       obtain ⟨k0, hk0, hg0⟩ := getRecordByName_some cfg hex
-      have hkey := key_normalizeName_of_resolves cfg hH hk0 (hI.keyed k0 e hg0) (hI.lower cfg k0 e hg0)
-      exact ih _ _ _ hrest hI htrim' (Or.inr ⟨k0, hkey, by simp [hg0]⟩) h k r hg hnone hlen
+      have hkey := key_normalizeName_of_resolves cfg hH hhead.1 (hstored _ (mem_storedNames_of_get hg0))
+        hk0 (hI.keyed k0 e hg0) (hI.lower cfg k0 e hg0)
+      exact ih _ _ _ hrest hI htrim' hpath' hstored (Or.inr ⟨k0, hkey, by simp [hg0]⟩) h k r hg hnone hlen
+
+/-! ### which names the loop creates -/
+
+/-- the records the loop adds are exactly named: each is `⟨normalized level, owner, restriction⟩`
+for a level of the path, stored under that level's key (no hypothesis on the hash). -/
+theorem createRootLoop_created (addr : Addr) (restricted : Bool) (segs : List Bytes) :
+    ∀ (n : Bytes) (st st' : State κ), createRootLoop cfg addr restricted segs n st = .ok st' →
+      ∀ k r, get st'.recs k = some r → get st.recs k = some r ∨
+        (get st.recs k = none ∧ ∃ x ∈ rootPath segs n, r = ⟨normalizeName x, addr, restricted⟩ ∧
+          getNameKeyPrefix cfg (normalizeName x) = .ok k) := by
+  induction segs with
+  | nil =>
+    intro n st st' h k r hg
+    simp [createRootLoop] at h
+    subst h; exact Or.inl hg
+  | cons seg rest ih =>
+    intro n st st' h k r hg
+    simp only [createRootLoop] at h
+    split at h
+    · split at h
+      · cases h
+      · rename_i st1 h1
+        obtain ⟨nn, k1, hnn, hk1, hfree, rfl⟩ := setNameRecord_ok cfg h1
+        have hnneq := normalize_eq_normalizeName cfg hnn
+        rcases ih _ _ _ h k r hg with h2 | ⟨h2, x, hx, hr, hkx⟩
+        · by_cases hk : k = k1
+          · subst hk
+            simp only [get_set_self, Option.some.injEq] at h2
+            refine Or.inr ⟨hfree, trimRightDots (seg ++ dot :: n), by simp [rootPath], ?_, ?_⟩
+            · rw [← h2, hnneq]
+            · rw [← hnneq]; exact hk1
+          · rw [get_set_ne _ _ hk] at h2; exact Or.inl h2
+        · by_cases hk : k = k1
+          · subst hk; simp [get_set_self] at h2
+          · rw [get_set_ne _ _ hk] at h2
+            exact Or.inr ⟨h2, x, by simp [rootPath, hx], hr, hkx⟩
+    · rcases ih _ _ _ h k r hg with h2 | ⟨h2, x, hx, hr, hkx⟩
+      · exact Or.inl h2
+      · exact Or.inr ⟨h2, x, by simp [rootPath, hx], hr, hkx⟩
+
+/-- every level of the path is bound when the loop is done: to the record that was there before,
+or to a new record of the given owner and restriction. -/
+theorem createRootLoop_all_bound {names : List Bytes} (hH : NoHashCollision cfg names) (addr : Addr)
+    (restricted : Bool) (segs : List Bytes) :
+    ∀ (n : Bytes) (st st' : State κ), Inv cfg st →
+      (∀ x ∈ rootPath segs n, x ∈ names ∧ normalizeName x ∈ names) →
+      (∀ x ∈ storedNames st, x ∈ names) →
+      createRootLoop cfg addr restricted segs n st = .ok st' →
+      ∀ x ∈ rootPath segs n, ∃ k r, getNameKeyPrefix cfg (normalizeName x) = .ok k ∧
+        get st'.recs k = some r ∧
+        (get st.recs k = some r ∨ (get st.recs k = none ∧ r.addr = addr ∧ r.restricted = restricted)) := by
+  induction segs with
+  | nil => intro n st st' _ _ _ _ x hx; simp [rootPath] at hx
+  | cons seg rest ih =>
+    intro n st st' hI hpath hstored h x hx
+    have hhead := hpath (trimRightDots (seg ++ dot :: n)) (by simp [rootPath])
+    have hpath' : ∀ x ∈ rootPath rest (trimRightDots (seg ++ dot :: n)), x ∈ names ∧ normalizeName x ∈ names :=
+      fun x hx => hpath x (by simp [rootPath, hx])
+    simp only [rootPath, List.mem_cons] at hx
+    simp only [createRootLoop] at h
+    split at h
+    · split at h
+      · cases h
+      · rename_i st1 h1
+        have hI1 := inv_setNameRecord cfg hI h1
+        obtain ⟨nn, k1, hnn, hk1, hfree1, rfl⟩ := setNameRecord_ok cfg h1
+        have hnneq := normalize_eq_normalizeName cfg hnn
+        have hstored1 := storedNames_set_sub cfg hI1 hstored
+          (by simp only; rw [hnneq]; exact hhead.2)
+        have hmono := (createRootLoop_effect cfg addr restricted rest _ _ _ h).1
+        rcases hx with rfl | hx
+        · exact ⟨k1, _, by rw [← hnneq]; exact hk1, hmono k1 _ (get_set_self _ _ _),
+            Or.inr ⟨hfree1, rfl, rfl⟩⟩
+        · obtain ⟨k, r, hk, hg', hcase⟩ := ih _ _ _ hI1 hpath' hstored1 h x hx
+          refine ⟨k, r, hk, hg', ?_⟩
+          by_cases hkk : k = k1
+          · subst hkk
+            rcases hcase with h2 | ⟨h2, -⟩
+            · simp only [get_set_self, Option.some.injEq] at h2
+              exact Or.inr ⟨hfree1, by rw [← h2], by rw [← h2]⟩
+            · simp [get_set_self] at h2
+          · simpa only [get_set_ne _ _ hkk] using hcase
+    · rename_i e hex
+      obtain ⟨k0, hk0, hg0⟩ := getRecordByName_some cfg hex
+      have hkey := key_normalizeName_of_resolves cfg hH hhead.1 (hstored _ (mem_storedNames_of_get hg0))
+        hk0 (hI.keyed k0 e hg0) (hI.lower cfg k0 e hg0)
+      have hmono := (createRootLoop_effect cfg addr restricted rest _ _ _ h).1
+      rcases hx with rfl | hx
+      · exact ⟨k0, e, hkey, hmono k0 e hg0, Or.inl hg0⟩
+      · exact ih _ _ _ hI hpath' hstored h x hx
+
+/-! ### `rootSuffixes` (the declarative list of levels) is the normalized path of the loop -/
+
+theorem rootSuffixes_fold (segs : List Bytes) : ∀ (acc : List Bytes) (n : Bytes),
+    (segs.foldl (fun (acc : List Bytes × Bytes) seg =>
+      let n := trimRightDots (seg ++ dot :: acc.2)
+      (normalizeName n :: acc.1, n)) (acc, n)).1 =
+    ((rootPath segs n).map normalizeName).reverse ++ acc := by
+  induction segs with
+  | nil => intro acc n; simp [rootPath]
+  | cons seg rest ih =>
+    intro acc n
+    simp only [List.foldl_cons, rootPath, List.map_cons, List.reverse_cons, List.append_assoc,
+      List.singleton_append]
+    exact ih _ _
+
+theorem rootSuffixes_eq (name : Bytes) :
+    rootSuffixes name = ((rootPath (splitDot name).reverse []).map normalizeName).reverse := by
+  unfold rootSuffixes
+  rw [rootSuffixes_fold]; simp
+
+theorem mem_rootSuffixes {name t : Bytes} :
+    t ∈ rootSuffixes name ↔ ∃ x ∈ rootPath (splitDot name).reverse [], t = normalizeName x := by
+  rw [rootSuffixes_eq, List.mem_reverse, List.mem_map]
+  constructor
+  · rintro ⟨x, hx, rfl⟩; exact ⟨x, hx, rfl⟩
+  · rintro ⟨x, hx, rfl⟩; exact ⟨x, hx, rfl⟩
 
 end PvModel.Name
